@@ -89,6 +89,19 @@ def build_harness():
     _built = True
 
 
+CLI_TARGET = os.path.join(HARNESS, "target-cli")
+
+
+def build_cli():
+    """build the command-line tools of /repo's current working tree (feature `cli`) into harness/target-cli"""
+    rc, out = sh(["cargo", "build", "--offline", "--manifest-path", "/repo/Cargo.toml", "--features", "cli", "--bins",
+                  "--target-dir", CLI_TARGET], timeout=1500, env={"CARGO_NET_OFFLINE": "true"})
+    if rc != 0:
+        sys.stdout.write(out[-3000:])
+        raise ToolError("building the CLI binaries failed")
+    return os.path.join(CLI_TARGET, "debug")
+
+
 def rv(args, timeout=600):
     rc, out = sh([RV] + [str(a) for a in args], timeout=timeout)
     if rc != 0:
